@@ -166,7 +166,7 @@ def m_names(doc, rng, extra):
     if r < 0.5:
         d = rng.choice(demes)
         if isinstance(d, dict):
-            d["name"] = rng.choice(["1a", "a b", "", "a-b", "for", "_", "a.b", "a\n"])
+            d["name"] = rng.choice(["1a", "a b", "", "a-b", "for", "_", "a.b", "a\n", "a²", "\u0301a", "٣x", "·x", "a\u00a0b", "😀", "a😀", "π", "名前", "x٣", "a·b", "a\u0301"])
             return "names:invalid"
     if r < 0.75 and len(demes) >= 2:
         i, j = rng.sample(range(len(demes)), 2)
